@@ -186,9 +186,13 @@ impl PrometheusBuilder {
     where
         A: AsRef<str>,
     {
+        use std::net::IpAddr;
         use std::str::FromStr;
 
+        // Accept both a subnet in CIDR notation and a plain IP address, which is the subnet holding
+        // just that address.
         let address = IpNet::from_str(address.as_ref())
+            .or_else(|e| IpAddr::from_str(address.as_ref()).map(IpNet::from).map_err(|_| e))
             .map_err(|e| BuildError::InvalidAllowlistAddress(e.to_string()))?;
         self.allowed_addresses.get_or_insert(vec![]).push(address);
 
